@@ -297,6 +297,31 @@ Theorem C08_unstarted_query_sees_engine_of_first_next : forall fuel name n st op
 Proof. exact unstarted_query_sees_engine_of_first_next. Qed.
 Print Assumptions C08_unstarted_query_sees_engine_of_first_next.
 
+(* ---- the same over HISTORIES (what the correspondence check runs).  The results of the `next`
+   operations on suspended query i in a history are the run of its generator under the schedule of
+   the engines current at these `next` (no `close i` in the history) ... *)
+Theorem C08_nexts_are_schedule : forall fuel i n ops st g,
+  nth_error (st_susp st) i = Some (g, n) ->
+  forallb (fun o => negb (is_close i o)) ops = true ->
+  nexts_of fuel i ops st = sched_obs n (engines_at fuel i ops st) g.
+Proof. exact nexts_are_schedule. Qed.
+Print Assumptions C08_nexts_are_schedule.
+
+(* ... so: two arbitrary histories in which the first `next` of the not yet started query object of
+   a call name/n finds the same engine e0 (whose definitions for name/n make no calls) and which
+   resume it equally often report the same at every `next` of it, whatever else they do to the
+   engine (register, loads, asserts, clear, other queries) before, between and after *)
+Theorem C08_history_call_time_resolution : forall f name n i1 i2 ops1 ops2 st1 st2 e0 es1 es2,
+  let q := query_gen (S f) name (seq 0 n) n [] in
+  nth_error (st_susp st1) i1 = Some (Some q, n) -> nth_error (st_susp st2) i2 = Some (Some q, n) ->
+  forallb (fun o => negb (is_close i1 o)) ops1 = true -> forallb (fun o => negb (is_close i2 o)) ops2 = true ->
+  engines_at (S f) i1 ops1 st1 = e0 :: es1 -> engines_at (S f) i2 ops2 st2 = e0 :: es2 ->
+  length es1 = length es2 ->
+  forallb callfree (call_defs e0 name n) = true ->
+  nexts_of (S f) i1 ops1 st1 = nexts_of (S f) i2 ops2 st2.
+Proof. exact history_call_time_resolution. Qed.
+Print Assumptions C08_history_call_time_resolution.
+
 (* the big-step reading used above is the schedule in which the engine never changes *)
 Theorem C08_drain_is_constant_schedule : forall e st n,
   length (fst (drain e st)) < n ->
